@@ -103,8 +103,8 @@ def o_refused(root, pre, op, res, extra):
 
 def o_no_double(root, pre, op, res, extra):
     """C19: re-inserting a node that already lives elsewhere must always be refused."""
-    if not res or res[0] != 'ok' or op['kind'] == 'numop':
-        return []  # arithmetic copies its right operand (C13); it does not re-insert the node
+    if not res or res[0] != 'ok' or op['kind'] in ('numop', 'claim', 'unclaim', 'claim-inter', 'unclaim-inter'):
+        return []  # arithmetic copies its right operand (C13); (un)claim calls name comments that ARE in the document
     refs = extra.get('attached_args', [])
     for v, same_slot in refs:
         if not same_slot:
@@ -390,6 +390,9 @@ def o_fresh(root, pre, op, res, extra):
     return []
 
 
+ARITHMETIC = {'DivisionByZero', 'InvalidOperation', 'DivisionUndefined', 'DivisionImpossible', 'Overflow', 'ZeroDivisionError'}
+
+
 def o_reads(root, pre, op, res, extra):
     """Every public attribute of every model of the document can be read (views iterated, mappings listed) without an
     internal error: a document some accessor of which raises is no longer usable, whatever else still looks right."""
@@ -398,6 +401,8 @@ def o_reads(root, pre, op, res, extra):
             continue
         for k, v in intro.public_reads(m).items():
             if isinstance(v, tuple) and v and isinstance(v[0], str) and 'raises' in v[0]:
+                if v[-1] in ARITHMETIC:
+                    continue      # the ledger's own arithmetic (1 / (7 - 7)): decimal's signal, not an internal error
                 return [(f'reads:{type(m).__name__}.{k}:{v[-1]}', f'after {op["kind"]}: reading {"/".join(map(str, p))} ({type(m).__name__}).{k} raises {v[-1]}')]
     return []
 
